@@ -177,6 +177,12 @@ def gen_stmt(rng, env, max_tmps=8, allow_new_local=True):
 
 
 def _gen_stmt(rng, env, max_tmps=8, allow_new_local=True):
+    if rng.random() < 0.04:
+        # a bare operator expression as a statement: compiled, evaluated for its faults and nested binds, value discarded
+        # (round 6: an "unobservable statement" pruning dropped them although && / || / arithmetic can fault)
+        e, _ = (gen_cond if rng.random() < 0.5 else gen_num)(rng, env, rng.randrange(1, 5))
+        if e[0] == "op" and e[1] not in ("bind", "if", "notif", "ewma"):
+            return e
     r = rng.random()
     if r < 0.08:
         return ("cmd", "report")
@@ -532,6 +538,10 @@ def semantic_corner_programs():
     out.append("(def (Report (acked 0)) (c 0)) (when true (:= x y) (:= x 3) (:= Report.acked x) (report))")
     out.append("(def (Report (a 0) (b 0))) (when true (bind p q) (bind p 5) (bind q 6) (:= Report.a p) (:= Report.b q) (report))")
     out.append("(def (Report (a 0))) (when true (:= p q) (:= r p) (:= p 1) (:= r 2) (:= q 3) (:= Report.a (+ (+ p r) q)) (report))")
+    for st in ("(|| Flow.was_timeout false)", "(&& Flow.was_timeout true)", "(> Ack.bytes_acked 5)", "(+ Ack.bytes_acked 18446744073709551615)",
+               "(/ 7 Ack.lost_pkts_sample)", "(max Report.x (:= Report.x 4))", "(* (+ Report.x 1) (- Report.x 1))"):
+        out.append("(def (Report (r 0) (x 1))) (when true %s (:= Report.r (+ Report.r 1)) (report)) (when true (:= Report.r 100))" % st)
+        out.append("(def (Report (r 0) (x 1))) (when true (:= Report.r 5) %s %s (report))" % (st, st))
     # the SAME pure sub-expression before and after a nested bind of a variable it reads (round 5: a table of already computed
     # sub-expressions reused the first temporary although a guarded bind had changed the variable in between)
     for g in ("(if (> Ack.bytes_acked 0) 7)", "(!if (> Ack.bytes_acked 0) 7)", "(ewma 5 Ack.bytes_acked)", "7", "(+ Report.x Ack.bytes_acked)"):
